@@ -12,7 +12,7 @@ namespace Cedar
     (with its length prefix on an encrypting stream) is flushed for, prefixed, and then streamed by
     `PutBytes(b)` followed by `PutBytes([0])` — the frame cuts can differ from `PutString`'s, the
     bytes may not. -/
-def putStringBytes (enc : Bool) (buf : Bytes) (s : Bytes) : PutRes :=
+def putStringBytesL (enc : Bool) (buf : Bytes) (s : Bytes) : PutRes :=
   let t := truncNul s
   let length := t.length + 1
   let needed := length + (if enc then 8 else 0)
